@@ -958,6 +958,13 @@ def numpy_spellings(tree):
                 # square(x) is x * x element-wise, the value of x ** 2 (the repository writes the power)
                 count[0] += 1
                 return ast.copy_location(ast.BinOp(left=n.args[0], op=ast.Pow(), right=ast.Constant(value=2)), n)
+            if nm == "full" and len(n.args) == 2 and not n.keywords:
+                # full(n, v) holds v in every cell: zeros(n) + v (the repository's spelling); the name `zeros` is numpy's either way
+                count[0] += 1
+                if "zeros" not in from_numpy.values():
+                    added.add("zeros")
+                return ast.copy_location(ast.BinOp(left=ast.Call(func=ast.Name(id="zeros", ctx=ast.Load()), args=[n.args[0]], keywords=[]),
+                                                   op=ast.Add(), right=n.args[1]), n)
             if nm in ("matmul", "dot") and len(n.args) == 2 and not n.keywords and nm == "matmul":
                 count[0] += 1
                 return ast.copy_location(ast.BinOp(left=n.args[0], op=ast.MatMult(), right=n.args[1]), n)
@@ -983,7 +990,7 @@ def numpy_spellings(tree):
                 count[0] += 1
                 return ast.copy_location(ast.Name(id=n.attr, ctx=ast.Load()), n)
             return n
-    if not aliases and not (set(from_numpy.values()) & (_METHOD_FORM | {"transpose", "newaxis", "square", "matmul"})):
+    if not aliases and not (set(from_numpy.values()) & (_METHOD_FORM | {"transpose", "newaxis", "square", "matmul", "full"})):
         return 0
     V().visit(tree)
     if added:
